@@ -110,6 +110,11 @@ def hareQuotaSeats (votes : Votes) (n : Nat) (prev : Seats) : Except Err Seats :
     else pure sel
   votes.foldl step (.ok [])
 
+/-- `quota_elected[candidate] += 1` / `= 1` for one entry of `best` (proportional.py L385-389) -/
+def incSlot (acc : Dist) : Slot → Dist
+  | .cand c => setK acc (.cand c) (distGet acc (.cand c) + 1)
+  | .tie cs => setK acc (.tie (sortNat cs)) (distGet acc (.tie (sortNat cs)) + 1)
+
 /-- `LargestRemainder('hare').evaluate(votes, n, prev_gains, max_seats={})` (proportional.py L352-390) -/
 def lrHareEval : PropEval := fun votes n prev caps =>
   if caps ≠ [] then .error unmodelled else do
@@ -123,10 +128,7 @@ def lrHareEval : PropEval := fun votes n prev caps =>
   let remainders : Votes := votes.map (fun p => (p.1, p.2 / q - (gained p.1 : Nat)))
   let best : List Slot := if nRem = 0 then [] else getNBest remainders nRem
   let qd : Dist := seatsToDist qe
-  pure (best.foldl (fun acc s =>
-    match s with
-    | .cand c => setK acc (.cand c) (distGet acc (.cand c) + 1)
-    | .tie cs => setK acc (.tie (sortNat cs)) (distGet acc (.tie (sortNat cs)) + 1)) qd)
+  pure (best.foldl incSlot qd)
 
 /-! ### AllowOverhang -/
 
